@@ -31,3 +31,11 @@ let sx_str s = Sx.A (hex_of_str s)
 let sx_int i = Sx.A (string_of_int i)
 let sx_bool b = Sx.A (if b then "1" else "0")
 let bool_of x = (Sx.int_of x) <> 0
+
+(* Z values up to the int64 range (OCaml's int is only 63 bits wide) *)
+let rec int64_of_pos = function
+  | Coq_xH -> 1L
+  | Coq_xO p -> Int64.mul 2L (int64_of_pos p)
+  | Coq_xI p -> Int64.add (Int64.mul 2L (int64_of_pos p)) 1L
+let int64_of_z = function Z0 -> 0L | Zpos p -> int64_of_pos p | Zneg p -> Int64.neg (int64_of_pos p)
+let sx_z z = Sx.A (Int64.to_string (int64_of_z z))
